@@ -628,3 +628,83 @@ pub fn annotate(g: &mut Grammar, t: &mut Tape) {
         }
     }
 }
+
+/// AST-control decoration for the compiled-code checks (C22/C23): clipping, member names and user
+/// types on symbol occurrences, `%nt_type`, `%t_type`, `%user_type`.  User types name the types of
+/// the generated crate's `types` module, which implement the conversions parol's book requires.
+/// Smaller tape values = fewer annotations.
+pub fn ast_annotate(g: &mut Grammar, t: &mut Tape) {
+    let members = ["lhs", "rhs", "item", "op", "first", "rest", "value_1", "x", "m"];
+    let utypes = ["crate::types::Num", "Alias", "crate::types::Tok"];
+    let mut alias_used = false;
+    if t.next(6) == 5 {
+        g.t_type = Some("crate::types::Tok".to_string());
+    }
+    let nts = g.nts();
+    for n in nts.iter().filter(|n| **n != g.start) {
+        if t.next(8) == 7 {
+            g.nt_types.push((n.clone(), "crate::types::Num".to_string()));
+        }
+    }
+    fn walk(a: &mut Alts, t: &mut Tape, members: &[&str], utypes: &[&str], alias_used: &mut bool) {
+        for alt in a.iter_mut() {
+            for f in alt.iter_mut() {
+                match f {
+                    Factor::T { ann, .. } | Factor::N { ann, .. } => {
+                        match t.next(12) {
+                            0..=5 => {}
+                            6 | 7 => ann.clip = true,
+                            8 | 9 => ann.member = Some(members[t.next(members.len())].to_string()),
+                            10 => ann.utype = Some(utypes[t.next(utypes.len())].to_string()),
+                            _ => {
+                                ann.member = Some(members[t.next(members.len())].to_string());
+                                ann.utype = Some(utypes[t.next(utypes.len())].to_string());
+                            }
+                        }
+                        if ann.utype.as_deref() == Some("Alias") {
+                            *alias_used = true;
+                        }
+                    }
+                    Factor::Group(x) | Factor::Opt(x) | Factor::Rep(x) => walk(x, t, members, utypes, alias_used),
+                }
+            }
+        }
+    }
+    for p in g.prods.iter_mut() {
+        walk(&mut p.alts, t, &members, &utypes, &mut alias_used);
+    }
+    if alias_used {
+        g.user_types.push(("Alias".into(), "crate::types::Num".into()));
+    }
+}
+
+impl Input {
+    /// rendered text plus the byte span of every token
+    pub fn render_spans(&self, terms: &[Term], comments: bool) -> (String, Vec<(usize, usize)>) {
+        let mut s = String::new();
+        let mut spans = vec![];
+        let sep = |i: usize| -> &str {
+            let k = self.seps.get(i).copied().unwrap_or(0) as usize % SEPS.len();
+            let x = SEPS[k];
+            if !comments && x.contains('/') { " " } else { x }
+        };
+        if self.seps.first().copied().unwrap_or(0) != 0 {
+            s.push_str(sep(0));
+        }
+        for (i, t) in self.toks.iter().enumerate() {
+            if i > 0 {
+                s.push_str(sep(i));
+            }
+            let a = s.len();
+            match t {
+                InTok::T(k) => s.push_str(&terms[*k].sample),
+                InTok::Foreign => s.push_str(FOREIGN),
+            }
+            spans.push((a, s.len()));
+        }
+        if self.seps.get(self.toks.len()).copied().unwrap_or(0) != 0 {
+            s.push_str(sep(self.toks.len()));
+        }
+        (s, spans)
+    }
+}
